@@ -752,6 +752,23 @@ theorem dump_roundtrip (h1 : Gen.asn1RecurseIntoEmpty = false) (h2 : Gen.asn1Val
   rw [hl]
   simp only [toRawList, rawInfos, rawInfo_toRaw h2 t h, report]
 
+theorem isASN1_complete (h1 : Gen.asn1RecurseIntoEmpty = false) (t : Tlv) (h : Wf t) : isASN1 (enc t) = true := by
+  have hl := parse_list h1 [t] ((enc t).length + 1) (by simp) (by simp only [WfList]; exact ⟨h, trivial⟩)
+    (by simp only [encList, List.append_nil]; omega)
+  simp only [encList, List.append_nil] at hl
+  unfold isASN1
+  rw [accept_complete t h, hl]
+  simp
+
+theorem isASN1_dump (hw : Gen.asn1IdentifierWalksTree = true) (d : Bytes) (h : isASN1 d = true) : (dump d).isSome = true := by
+  unfold isASN1 at h
+  rw [hw] at h
+  simp only [if_true, Bool.and_eq_true] at h
+  unfold dump
+  cases hp : parseRaw (d.length + 1) d with
+  | none => rw [hp] at h; simp at h
+  | some items => rfl
+
 /-! ### prefix stability -/
 
 theorem pb_append (x : Bytes) : ∀ (bs : Bytes) (s acc v : Nat) (r : Bytes),
